@@ -131,6 +131,21 @@ CHECKS = [
         note="N<=6 (quick)/10 rows; hierarchies deeper than 3 levels or wider than 5 leaves and intermediate values appearing as raw data are outside the claim.",
         technique=TECH,
     ),
+
+    dict(
+        property_id="C14",
+        text="Bounded symbolic model checking of the selectors: the real select/_select_features/apply_measures/make_measure/apply_filters/thresh_filter/quantitative_filter/qualitative_filter run with one symbolic association value per feature (user-supplied measure through the public API), a symbolic inter-feature correlation matrix (DataFrame subclass whose corr() is symbolic; symmetric symbolic pairwise association for the qualitative filter) and a symbolic thresh_corr: z3 proves on every path that the result is distinct, ordered by decreasing measure, <= n_best, pairwise association <= thresh_corr, and that a feature is left out only for one of the three allowed reasons. Statistics (V, T, H with missing rows removed, Spearman/Pearson filter values) equal an independent scipy recomputation on solver-chosen small samples; lists of several association measures are exercised at API level.",
+        design_ref="DESIGN.md 6/C14",
+        note="m<=3 (quick)/4 features per type; colsample<1 (random.shuffle) and scipy's own correctness are outside the claim; X, y untouched is asserted on every path.",
+        technique=TECH,
+    ),
+    dict(
+        property_id="C15",
+        text="Bounded symbolic, relational model checking of selector invariances: RegressionSelector with its default measures is run on symbolic target correlations r_i (scipy's correlation distance stubbed by its contract 1-r, 1+r after negation; Spearman matrix with sign flips) before and after negating a solver-chosen subset of features: the selections must be equal and an exact copy of the target (r=1) must be selected; both selectors are run on real data with the real statistics under a solver-chosen re-encoding (positive rescaling, negation for rank-based measures, category renaming, row permutation, column rotation).",
+        design_ref="DESIGN.md 6/C15",
+        note="Two open known findings (KF-C15-1 negation changes RegressionSelector's selection; KF-C15-2 exact copy of the target dropped), both confirmed on real data. m<=3/4 features in the relational obligation; the statistics' own invariances (rank statistics under monotone maps) are properties of scipy and are exercised, not proved.",
+        technique=TECH + "; relational (two-run) path conditions",
+    ),
 ]
 
 ALL = ["C%02d" % i for i in range(1, 20)]
